@@ -871,4 +871,259 @@ theorem match_core {β : Type} (f : Nat → Nat → β → Out) (arms : List (Pa
     · exact Or.inl (Or.inr hp)
     · exact hblock (by unfold armLen; rcases hp with rfl | rfl <;> omega)
 
+
+/-! ## the run descriptions exist whenever the evaluator takes that branch / arm (C22 simulation) -/
+
+theorem armStarts_length {β : Type} (f : Nat → Nat → β → Out) : ∀ (arms : List (Pat × β)) (wp c : Nat),
+    (armStarts f wp c arms).length = arms.length
+  | [], _, _ => rfl
+  | (pat, body) :: rest, wp, c => by simp [armStarts, armStarts_length f rest]
+
+/-- the labels defined by arm `k`'s body resolve -/
+theorem arm_defsG {β : Type} (f : Nat → Nat → β → Out) (end_ : Label) :
+    ∀ (arms : List (Pat × β)) (ls : List Label) (wp c k : Nat) (pat : Pat) (body : β) (wpk ck : Nat),
+    arms[k]? = some (pat, body) → k < ls.length → (armStarts f wp c arms)[k]? = some (wpk, ck) →
+    DefsOk S.labels (armsG f wp c end_ ls arms).defs →
+    DefsOk S.labels (f (wpk + 1 + (armPre pat).length) ck body).defs
+  | [], _, _, _, _, _, _, _, _, h, _, _, _ => by simp at h
+  | _ :: _, [], _, _, _, _, _, _, _, _, h, _, _ => by simp at h
+  | (p0, b0) :: rest, l0 :: ls, wp, c, k, pat, body, wpk, ck, ha, hl, hs, hdefs => by
+    simp only [armsG] at hdefs
+    rw [List.cons_append, defsOk_cons, defsOk_append] at hdefs
+    simp only [armStarts] at hs
+    cases k with
+    | zero =>
+      simp only [List.getElem?_cons_zero, Option.some.injEq, Prod.mk.injEq] at ha hs
+      obtain ⟨rfl, rfl⟩ := ha
+      obtain ⟨rfl, rfl⟩ := hs
+      exact hdefs.2.1
+    | succ k =>
+      simp only [List.getElem?_cons_succ] at ha hs
+      simp only [List.length_cons] at hl
+      have e : wp + armLen f wp c p0 b0 = wp + 1 + (armPre p0).length + (f (wp + 1 + (armPre p0).length) c b0).code.length + 2 := by
+        unfold armLen; omega
+      rw [e] at hs
+      exact arm_defsG f end_ rest ls _ _ k pat body wpk ck ha (by omega) hs hdefs.2.2
+
+/-- which branch of a chain the evaluator takes: `some k` — the condition of branch `k` is the
+first to evaluate to `true`; `none` — all conditions evaluate to `false`; with the log after the
+last condition evaluated.  (`none` overall: some condition does not evaluate to a boolean.) -/
+def chainSel (p : Program) (n : Nat) (env : Env) : Log → List (Expr × List Stmt) → Option (Option Nat × Log)
+  | log, [] => some (none, log)
+  | log, (c, _) :: rest => match evalExpr p n env log c with
+    | .val (.bool true) l => some (some 0, l)
+    | .val (.bool false) l => match chainSel p n env l rest with
+      | some (k, l') => some (k.map (· + 1), l')
+      | none => none
+    | _ => none
+
+/-- **branch `k` taken by the evaluator ⇒ the VM's run has the `ChainRun` description with `k`** -/
+theorem chainRun_of_eval_taken (hP : ProgOk S) (n : Nat) (env : Env) (junk base : List Val) (fr : List Env) (K : List Nat)
+    (endL : Label) (endAddr : Nat) :
+    ∀ (brs : List (Expr × List Stmt)) (wp c : Nat) (log : Log) (k : Nat) (l1 : Log) (cnd : Expr) (ss : List Stmt)
+      (b : List (Nat × Val)) (env' : Env) (l2 : Log),
+    CodeAt S.labels S.m.prog wp (compileBranches S.m.p.structs wp c endL brs).code →
+    DefsOk S.labels (compileBranches S.m.p.structs wp c endL brs).defs →
+    chainSel S.m.p n env log brs = some (some k, l1) → brs[k]? = some (cnd, ss) →
+    evalStmts S.m.p n ([] :: env) l1 ss = .val (b :: env') l2 →
+    ∃ ps sub gl, ChainRun S (junk ++ base) env fr (base.length :: K) endAddr wp c brs log true k ps sub gl
+      ⟨junk ++ base, env' :: fr, base.length :: K, endAddr, l2⟩
+  | [], _, _, _, _, _, _, _, _, _, _, _, _, h, _, _ => by simp [chainSel] at h
+  | (c0, ss0) :: rest, wp, c, log, k, l1, cnd, ss, b, env', l2, hcode, hdefs, hsel, hk, hev => by
+    rw [compileBranches_cons] at hcode hdefs
+    simp only [defsOk_append, defsOk_cons, DefsOk.nil, and_true] at hdefs
+    obtain ⟨⟨⟨hdC, hdB⟩, _⟩, hdR⟩ := hdefs
+    simp only [codeAt_append] at hcode
+    obtain ⟨⟨⟨⟨hcC, _⟩, hcB⟩, _⟩, hcR⟩ := hcode
+    have ihc := (sim_all S hP n).e c0 env log wp (c + 1) junk base fr K (supE_all c0) hcC hdC
+    simp only [chainSel] at hsel
+    cases hrc : evalExpr S.m.p n env log c0 with
+    | val x l =>
+      rw [hrc] at hsel ihc
+      simp only [Outcome] at ihc
+      cases x <;> try (simp at hsel; done)
+      rename_i bv
+      cases bv with
+      | true =>
+        simp only [Option.some.injEq, Prod.mk.injEq] at hsel
+        obtain ⟨hk0, rfl⟩ := hsel
+        cases hk0
+        simp only [List.getElem?_cons_zero, Option.some.injEq, Prod.mk.injEq] at hk
+        obtain ⟨rfl, rfl⟩ := hk
+        have ihb := (sim_all S hP n).ss ss0 ([] :: env) l _ _ junk base fr K (supSs_all ss0)
+          (codeAt_cast hcB (by lens)) hdB
+        rw [hev] at ihb
+        simp only [Outcome] at ihb
+        obtain ⟨psC, hC⟩ := StepsVia.of_steps ihc
+        obtain ⟨psB, hB⟩ := StepsVia.of_steps ihb
+        exact ⟨_, _, _, ChainRun.take (S := S) (rest := rest) hC hB⟩
+      | false =>
+        dsimp only at hsel
+        cases hrr : chainSel S.m.p n env l rest with
+        | none => rw [hrr] at hsel; simp at hsel
+        | some kl =>
+          obtain ⟨k', l'⟩ := kl
+          rw [hrr] at hsel
+          simp only [Option.some.injEq, Prod.mk.injEq] at hsel
+          obtain ⟨hk', rfl⟩ := hsel
+          cases k' with
+          | none => simp at hk'
+          | some k'' =>
+            simp only [Option.map_some, Option.some.injEq] at hk'
+            subst hk'
+            simp only [List.getElem?_cons_succ] at hk
+            obtain ⟨ps, sub, gl, hR⟩ := chainRun_of_eval_taken hP n env junk base fr K endL endAddr rest _ _ l k'' l' cnd ss b env' l2
+              (codeAt_cast hcR (by simp only [brNext]; lens)) hdR hrr hk hev
+            obtain ⟨psC, hC⟩ := StepsVia.of_steps ihc
+            exact ⟨_, _, _, ChainRun.skip (S := S) hC hR⟩
+    | _ => rw [hrc] at hsel; simp at hsel
+
+/-- **no branch taken by the evaluator ⇒ the VM's run has the `ChainRun` description with `taken = false`** -/
+theorem chainRun_of_eval_none (hP : ProgOk S) (n : Nat) (env : Env) (junk base : List Val) (fr : List Env) (K : List Nat)
+    (endL : Label) (endAddr : Nat) :
+    ∀ (brs : List (Expr × List Stmt)) (wp c : Nat) (log l1 : Log),
+    CodeAt S.labels S.m.prog wp (compileBranches S.m.p.structs wp c endL brs).code →
+    DefsOk S.labels (compileBranches S.m.p.structs wp c endL brs).defs →
+    chainSel S.m.p n env log brs = some (none, l1) →
+    ∃ ps sub gl t, ChainRun S (junk ++ base) env fr (base.length :: K) endAddr wp c brs log false brs.length ps sub gl t ∧
+      t.log = l1
+  | [], wp, c, log, l1, _, _, h => by
+    simp only [chainSel, Option.some.injEq, Prod.mk.injEq, true_and] at h
+    subst h
+    exact ⟨_, _, _, _, ChainRun.nil wp c log, rfl⟩
+  | (c0, ss0) :: rest, wp, c, log, l1, hcode, hdefs, hsel => by
+    rw [compileBranches_cons] at hcode hdefs
+    simp only [defsOk_append, defsOk_cons, DefsOk.nil, and_true] at hdefs
+    obtain ⟨⟨⟨hdC, _⟩, _⟩, hdR⟩ := hdefs
+    simp only [codeAt_append] at hcode
+    obtain ⟨⟨⟨⟨hcC, _⟩, _⟩, _⟩, hcR⟩ := hcode
+    have ihc := (sim_all S hP n).e c0 env log wp (c + 1) junk base fr K (supE_all c0) hcC hdC
+    simp only [chainSel] at hsel
+    cases hrc : evalExpr S.m.p n env log c0 with
+    | val x l =>
+      rw [hrc] at hsel ihc
+      simp only [Outcome] at ihc
+      cases x <;> try (simp at hsel; done)
+      rename_i bv
+      cases bv with
+      | true => simp at hsel
+      | false =>
+        dsimp only at hsel
+        cases hrr : chainSel S.m.p n env l rest with
+        | none => rw [hrr] at hsel; simp at hsel
+        | some kl =>
+          obtain ⟨k', l'⟩ := kl
+          rw [hrr] at hsel
+          simp only [Option.some.injEq, Prod.mk.injEq] at hsel
+          obtain ⟨hk', rfl⟩ := hsel
+          cases k' with
+          | some k'' => simp at hk'
+          | none =>
+            obtain ⟨ps, sub, gl, t, hR, ht⟩ := chainRun_of_eval_none hP n env junk base fr K endL endAddr rest _ _ l l'
+              (codeAt_cast hcR (by simp only [brNext]; lens)) hdR hrr
+            obtain ⟨psC, hC⟩ := StepsVia.of_steps ihc
+            exact ⟨_, _, _, _, ChainRun.skip (S := S) hC hR, ht⟩
+    | _ => rw [hrc] at hsel; simp at hsel
+
+/-! ### `match` -/
+
+section matchSem
+variable {S}
+
+/-- `matchVals` answering `h` ⇒ the tests' run has the `ValsRun` description with `hit = h` -/
+theorem valsRun_of_matchVals (hP : ProgOk S) (v : Val) (env : Env) (junk base : List Val) (fr : List Env) (K : List Nat)
+    (arm : Label) :
+    ∀ (vs : List Expr) (n wp c : Nat) (log : Log) (h : Bool) (l' : Log),
+    CodeAt S.labels S.m.prog wp (compilePatVals S.m.p.structs wp c arm vs).code →
+    DefsOk S.labels (compilePatVals S.m.p.structs wp c arm vs).defs →
+    matchVals S.m.p n env log v vs = .val h l' →
+    ∃ ps sub gl, ValsRun S v (junk ++ base) (env :: fr) (base.length :: K) arm wp c vs log h ps sub gl l'
+  | _, 0, _, _, _, _, _, _, _, hm => by simp [matchVals] at hm
+  | [], n + 1, wp, c, log, h, l', _, _, hm => by
+    simp only [matchVals, Res.val.injEq] at hm
+    obtain ⟨rfl, rfl⟩ := hm
+    exact ⟨_, _, _, ValsRun.nil wp c log⟩
+  | pe :: rest, n + 1, wp, c, log, h, l', hcode, hdefs, hm => by
+    simp only [matchVals] at hm
+    cases hb : bindingOf pe with
+    | some wx =>
+      obtain ⟨w, x⟩ := wx
+      have hw : wrapOfBinding pe = some w := by simp [wrapOfBinding_eq, hb]
+      rw [hb] at hm
+      simp only [compilePatVals, hw, codeAt_append] at hcode hdefs
+      by_cases hiw : isWrap w v = true
+      · simp only [hiw, if_true, Res.val.injEq] at hm
+        obtain ⟨rfl, rfl⟩ := hm
+        exact ⟨_, _, _, ValsRun.bindHit (S := S) hw hiw⟩
+      · have hiw' : isWrap w v = false := by simpa using hiw
+        simp only [hiw', Bool.false_eq_true, if_false] at hm
+        obtain ⟨ps, sub, gl, hR⟩ := valsRun_of_matchVals hP v env junk base fr K arm rest n (wp + 3) c log h l'
+          (codeAt_cast hcode.2 (by lens)) hdefs hm
+        exact ⟨_, _, _, ValsRun.bindMiss (S := S) hw hiw' hR⟩
+    | none =>
+      have hw : wrapOfBinding pe = none := by simp [wrapOfBinding_eq, hb]
+      rw [hb] at hm
+      simp only [compilePatVals, hw, defsOk_append] at hcode hdefs
+      have hcode' : CodeAt S.labels S.m.prog wp ([Instruction.Dup] ++ (compileExpr S.m.p.structs (wp + 1) c pe).code ++
+          [Instruction.Eq, br arm] ++
+          (compilePatVals S.m.p.structs (wp + 1 + (compileExpr S.m.p.structs (wp + 1) c pe).code.length + 2)
+            (compileExpr S.m.p.structs (wp + 1) c pe).c arm rest).code) := by
+        simpa [List.append_assoc] using hcode
+      simp only [codeAt_append] at hcode'
+      obtain ⟨⟨⟨_, hcE⟩, _⟩, hcR⟩ := hcode'
+      have ihe := (sim_all S hP n).e pe env log (wp + 1) c (v :: v :: junk) base fr K (supE_all pe)
+        (codeAt_cast hcE (by lens)) hdefs.1
+      cases hre : evalExpr S.m.p n env log pe with
+      | val lit l =>
+        rw [hre] at hm ihe
+        simp only [Outcome] at ihe
+        obtain ⟨psE, hE⟩ := StepsVia.of_steps ihe
+        dsimp only at hm
+        by_cases hbeq : v.beq lit = true
+        · simp only [hbeq, if_true, Res.val.injEq] at hm
+          obtain ⟨rfl, rfl⟩ := hm
+          exact ⟨_, _, _, ValsRun.litHit (S := S) (vs := rest) hw hE hbeq⟩
+        · have hbeq' : v.beq lit = false := by simpa using hbeq
+          simp only [hbeq', Bool.false_eq_true, if_false] at hm
+          obtain ⟨ps, sub, gl, hR⟩ := valsRun_of_matchVals hP v env junk base fr K arm rest n _ _ l h l'
+            (codeAt_cast hcR (by lens)) hdefs.2 hm
+          exact ⟨_, _, _, ValsRun.litMiss (S := S) hw hE hbeq' hR⟩
+      | _ => rw [hre] at hm; simp at hm
+
+/-- `selectArm` answering `k0 + j` ⇒ the dispatch has the `TestsRun` description selecting arm `j` -/
+theorem testsRun_of_select (hP : ProgOk S) (v : Val) (env : Env) (junk base : List Val) (fr : List Env) (K : List Nat) :
+    ∀ (pats : List Pat) (n wp c k0 : Nat) (log : Log) (k : Nat) (l' : Log),
+    CodeAt S.labels S.m.prog wp (compileTestsP S.m.p.structs wp c pats).1.code →
+    DefsOk S.labels (compileTestsP S.m.p.structs wp c pats).1.defs →
+    selectArm S.m.p n env log v pats k0 = .val k l' →
+    ∃ j lk ps sub gl, k = k0 + j ∧ TestsRun S v (junk ++ base) (env :: fr) (base.length :: K) wp c pats log j lk ps sub gl l'
+  | _, 0, _, _, _, _, _, _, _, _, hs => by simp [selectArm] at hs
+  | [], n + 1, _, _, _, _, _, _, _, _, hs => by simp [selectArm] at hs
+  | .default :: rest, n + 1, wp, c, k0, log, k, l', _, _, hs => by
+    simp only [selectArm, Res.val.injEq] at hs
+    obtain ⟨rfl, rfl⟩ := hs
+    exact ⟨0, _, _, _, _, rfl, TestsRun.dflt wp c rest log⟩
+  | .values vs :: rest, n + 1, wp, c, k0, log, k, l', hcode, hdefs, hs => by
+    simp only [selectArm] at hs
+    simp only [compileTestsP, codeAt_append, defsOk_append] at hcode hdefs
+    cases hrv : matchVals S.m.p n env log v vs with
+    | val h l =>
+      rw [hrv] at hs
+      obtain ⟨ps, sub, gl, hV⟩ := valsRun_of_matchVals hP v env junk base fr K (Label.anon c) vs n wp (c + 1) log h l
+        hcode.1 hdefs.1 hrv
+      cases h with
+      | true =>
+        simp only [Res.val.injEq] at hs
+        obtain ⟨rfl, rfl⟩ := hs
+        exact ⟨0, _, _, _, _, rfl, TestsRun.hit (S := S) (rest := rest) hV⟩
+      | false =>
+        dsimp only at hs
+        obtain ⟨j, lk, ps', sub', gl', hj, hT⟩ := testsRun_of_select hP v env junk base fr K rest n _ _ (k0 + 1) l k l'
+          hcode.2 hdefs.2 hs
+        exact ⟨j + 1, lk, _, _, _, by omega, TestsRun.miss (S := S) hV hT⟩
+    | _ => rw [hrv] at hs; simp at hs
+
+end matchSem
+
+
 end AranyaV.Lang
